@@ -89,4 +89,5 @@ Definition entries : list (Z * (data -> data)) :=
     (1007, fun d => eopt (elist e_dim) (convert_space std_table (d_fam (dnth 0 d)) (dmap (dpair dZ d_hp) (dnth 1 d))));
     (1008, fun d => elist e_atom (values (d_spec d)));
     (1009, fun d => L [I (q_int_normalized (dZ (dnth 0 d)) (dZ (dnth 1 d)) (d_Q (dnth 2 d)))]);
-    (1010, fun d => eopt e_atom (q_cat_normalized (dmap d_atom (dnth 0 d)) (d_Q (dnth 1 d)))) ].
+    (1010, fun d => eopt e_atom (q_cat_normalized (dmap d_atom (dnth 0 d)) (d_Q (dnth 1 d))));
+    (1011, fun d => eopt e_atom (inactive_value (d_spec d))) ].
